@@ -634,3 +634,27 @@ _R8B = {
 }
 for _p, _ms in _R8B.items():
     MUTANTS.setdefault(_p, []).extend(_ms)
+
+# round 9: each stored seeded change of the round as a thorough-tier mutant (the stored patch is the base, no further edit), expected
+# to be reported by the rule that was added or shared for it in its own property
+_R9 = {
+    "C01": ("C01-s9", "the day's purchases are indexed by BUY lines only: 30-day claims are looked up under a shifted key", ["R6:"]),
+    "C02": ("C02-s9", "pooling and SPLIT/UNSPLIT fused into one line-by-line pass", ["R7:"]),
+    "C03": ("C03-s9", "the cost pre-pass restates a lot's size at a SPLIT but not its consumed count", ["R6:"]),
+    "C05": ("C05-s9", "pooling and SPLIT/UNSPLIT fused into one line-by-line pass", ["R5:"]),
+    "C06": ("C06-s9", "the CLI skips lines an earlier input file already contains", ["R4:"]),
+    "C07": ("C07-s9", "all-years report flat_maps over Result: years outside the exemption table vanish", ["R5:"]),
+    "C08": ("C08-s9", "a FEES/TAX amount without a code takes the currency of the price on its line", ["R9:"]),
+    "C10": ("C10-s9", "pooling and SPLIT/UNSPLIT fused into one line-by-line pass", ["R7:"]),
+    "C12": ("C12-s9", "the canonicaliser reverses a newest-first list before the stable sort", ["R4:"]),
+    "C13": ("C13-s9", "merged SPLIT|UNSPLIT rule, direction picked by a case-sensitive starts_with", ["R3:"]),
+    "C14": ("C14-s9", "the list writer sorts by date and ticker", ["R1:"]),
+    "C16": ("C16-s9", "awards lookup scans the hash map with max_by_key after symbols stopped being upper-cased", ["R1:"]),
+    "C17": ("C17-s9", "SUMMARY cells formatted with a precision: long figures are clipped in the text report only", ["R4:"]),
+    "C18": ("C18-s9", "unknown-row description truncated at a byte position (panics inside a multi-byte character)", ["R6:"]),
+    "C19": ("C19-s9", "RSU deposit priced from the row's own Price when the awards lookup fails", ["R3:"]),
+}
+for _p, (_base, _what, _exp) in _R9.items():
+    _m = mut("s9-" + _base.lower(), _what, [], _exp)
+    _m["base"] = _base
+    MUTANTS.setdefault(_p, []).append(_m)
